@@ -53,6 +53,11 @@ def gen_cases(tier, seed):
         for scen in ("pending", "running"):
             cases.append({"kind": "race", "backend": backend, "scenario": scen, "strategy": "dfs", "p": 3 if thorough else 2, "seed": seed, "budget": 300 if thorough else 30})
             cases.append({"kind": "race", "backend": backend, "scenario": scen, "strategy": "pct", "count": 2500 if thorough else 60, "seed": seed * 71 + 3, "budget": 300 if thorough else 30})
+    # a live parent runner's real run() loop in virtual time: its alive children must never look dead to the running-recovery scan, for every timeout setting
+    for backend in ("mem", "sqlite"):
+        for kind in ("mtr", "ppr"):
+            for dead_minutes in ((0.05, 0.2, 1.0, 10.0) if thorough else (0.05, 1.0)):
+                cases.append({"kind": "parentloop", "backend": backend, "parent": kind, "dead_minutes": dead_minutes, "seed": seed, "n": 0})
     return cases
 
 
@@ -377,11 +382,87 @@ def run_race(case, V, hooks, distinct):
     return res.get("inconclusive")
 
 
+def run_parentloop(case, V, hooks, distinct):
+    """BaseRunner.run() of a parent with stand-in worker processes, one loop iteration per virtual second; after every iteration another runner
+    scans for dead-owner RUNNING work: the invocation RUNNING under an alive child must never be listed, the one under the dead child must be"""
+    from checks import c14
+    from vlib import vclock
+    from vtasks import basic
+    from pynenc.invocation.status import InvocationStatus
+    import pynenc.runner.multi_thread_runner as mtr
+    import pynenc.runner.persistent_process_runner as ppr
+    clock = vclock.VClock(start=1_700_000_000.0, tick=0.0)
+    inst = vclock.install(clock)
+    patch = c14.Patched(cpu=2)
+    try:
+        with TmpDir() as td:
+            conf = dict(cached_status_time=0.0, runner_considered_dead_after_minutes=case["dead_minutes"], runner_loop_sleep_time_sec=0.0)
+            if case["parent"] == "mtr":
+                conf.update(runner_cls="MultiThreadRunner", min_processes=2, max_processes=2, enforce_max_processes=True)
+            else:
+                conf.update(runner_cls="PersistentProcessRunner", num_processes=2)
+            app = make_app(case["backend"], td.db(), app_id=f"c04p{case['backend']}{case['parent']}", **conf)
+            task = app.task(basic.echo)
+            parent = (mtr.MultiThreadRunner if case["parent"] == "mtr" else ppr.PersistentProcessRunner)(app)
+            scanner = runner_ctx("ThreadRunner", "scanning-runner")
+            state = {"n": 0, "alive_inv": None, "dead_inv": None, "dead_since": None, "dead_listed_at": None}
+            real_iter = parent.runner_loop_iteration
+            limit = max(40, int(case["dead_minutes"] * 60 * 2.5) + 10)
+
+            def one_iteration():
+                orch = app.orchestrator
+                if state["n"] == 0:
+                    # two tracked workers; each owns one RUNNING invocation; the second one dies now
+                    ids = list(parent.child_runner_ids)
+                    for slot, cid in zip(("alive_inv", "dead_inv"), ids[:2]):
+                        cctx = runner_ctx("Worker", cid, parent=parent.runner_context)
+                        inv = task(slot)
+                        orch.set_invocation_status(inv.invocation_id, InvocationStatus.PENDING, cctx)
+                        orch.set_invocation_status(inv.invocation_id, InvocationStatus.RUNNING, cctx)
+                        state[slot] = inv.invocation_id
+                    orch.register_runner_heartbeats([ids[1]])
+                    parent.child_runner_ids[ids[1]].die(-9)
+                    state["dead_since"] = clock.peek()
+                real_iter()
+                state["n"] += 1
+                clock.advance(1.0)
+                orch.register_runner_heartbeats([scanner.runner_id])
+                listed = set(orch.get_running_invocations_for_recovery())
+                hooks["scans_compared"] += 1
+                hooks["live_untouched_checked"] += 1
+                if state["alive_inv"] in listed:
+                    V.append({"sig": f"scan-selects-live:child-of-looping-parent:{case['parent']}:{case['backend']}",
+                              "what": f"after {state['n']} loop iterations (1 s each, dead-after {case['dead_minutes']} min) the running-recovery scan lists the invocation of an ALIVE worker of a looping parent",
+                              "witness": {"case": case, "iteration": state["n"]}})
+                    parent.running = False
+                if state["dead_inv"] in listed and state["dead_listed_at"] is None:
+                    state["dead_listed_at"] = clock.peek() - state["dead_since"]
+                if state["n"] >= limit:
+                    parent.running = False
+            parent.runner_loop_iteration = one_iteration
+            import warnings
+            with warnings.catch_warnings():
+                warnings.simplefilter("ignore")
+                parent.run()
+            hooks["recovery_runs"] += 0
+            hooks["race_schedules"] += state["n"]
+            hooks["stuck_requeued_checked"] += 1
+            if state["dead_listed_at"] is None:
+                V.append({"sig": f"scan-misses-stuck:dead-child-of-looping-parent:{case['parent']}:{case['backend']}",
+                          "what": f"the invocation of a worker that died {limit} s ago (dead-after {case['dead_minutes']} min) was never listed by the running-recovery scan", "witness": {"case": case}})
+            distinct.append(["parentloop", case["backend"], case["parent"], case["dead_minutes"], state["n"]])
+    finally:
+        patch.close()
+        inst.uninstall()
+
+
 def run_case(case):
     hooks = Counter()
     V, distinct = [], []
     inconc = None
-    if case["kind"] == "hist":
+    if case["kind"] == "parentloop":
+        run_parentloop(case, V, hooks, distinct)
+    elif case["kind"] == "hist":
         run_hist(case, V, hooks, distinct)
     else:
         inconc = run_race(case, V, hooks, distinct)
